@@ -331,6 +331,30 @@ func Path2ContainsPath1(path1, path2 Path64) bool {
 		}
 	}
 
+	// every vertex of path1 is on (or within rounding of) path2's boundary, so
+	// let the midpoints of path1's edges vote: edges shared with path2 abstain,
+	// the others lie on the side of path2 that path1 is on
+	votes := 0
+	var prevPt Point64
+	if len(path1) > 0 {
+		prevPt = path1[len(path1)-1]
+	}
+	for _, pt := range path1 {
+		mid := Point64{X: prevPt.X + (pt.X-prevPt.X)/2, Y: prevPt.Y + (pt.Y-prevPt.Y)/2}
+		switch PointInPolygon(mid, path2) {
+		case IsInside:
+			votes++
+		case IsOutside:
+			votes--
+		default:
+			// do nothing
+		}
+		prevPt = pt
+	}
+	if votes != 0 {
+		return votes > 0
+	}
+
 	bounds := getBounds(path1)
 	mp := bounds.MidPoint()
 	return PointInPolygon(mp, path2) != IsOutside
